@@ -357,7 +357,7 @@ def shrink_line(line, proj, budget=120):
 def write_replay(ctx, v, extra=None):
     os.makedirs(os.path.join(ROOT, "replays"), exist_ok=True)
     body = {"property": ctx.pid, "tier": ctx.tier, "seed": ctx.seed, "kind": v["kind"]}
-    for k in ("op", "gen", "proj", "model", "pyemv", "predicate", "detail", "history", "theorem", "note", "shared_objects"):
+    for k in ("op", "gen", "proj", "model", "pyemv", "predicate", "detail", "history", "theorem", "note", "shared_objects", "rewritten_buffers"):
         if k in v and v[k] is not None:
             body[k] = v[k]
     if extra:
@@ -381,17 +381,18 @@ def do_replay(pid, path):
         want = run_model(lines, 1)
         bad = 0
         import contextlib
-        scope = pyexec.shared_objects() if r.get("shared_objects") else contextlib.nullcontext()
-        for ln, w in zip(lines, want):
-            try:
-                with scope:
+        scope = (pyexec.shared_objects() if r.get("shared_objects") else pyexec.rewritten_buffers() if r.get("rewritten_buffers")
+                 else contextlib.nullcontext())
+        with scope:
+            for ln, w in zip(lines, want):
+                try:
                     g = pyexec.py_answer(ln)
-            except Exception as e:  # noqa: BLE001
-                g = f"cannot re-execute ({e})"
-            diff = PROJ[proj](g) != PROJ[proj](w)
-            if diff or ln == lines[-1]:
-                print(f"  op    : {ln[:400]}\n  model : {w[:300]}\n  pyemv : {g[:300]}\n  {'DISAGREE' if diff else 'agree'}")
-            bad += diff
+                except Exception as e:  # noqa: BLE001
+                    g = f"cannot re-execute ({e})"
+                diff = PROJ[proj](g) != PROJ[proj](w)
+                if diff or ln == lines[-1]:
+                    print(f"  op    : {ln[:400]}\n  model : {w[:300]}\n  pyemv : {g[:300]}\n  {'DISAGREE' if diff else 'agree'}")
+                bad += diff
         print("reproduced" if bad else "not reproduced on the current tree")
         return 1 if bad else 0
     print("  " + str(r.get("predicate") or r.get("theorem")) + ": " + str(r.get("detail"))[:600])
@@ -461,6 +462,25 @@ def shared_object_session(ctx):
                                        "detail": f"{line[:300]} with memoryview arguments -> {g[:200]}, bytes arguments -> {want[:200]}",
                                        "op": line})
                 break
+    # the same calls with one buffer per (operation, argument position) overwritten in place between calls, on
+    # cryptogram-version objects that stay alive: a callee that remembers an argument object is now wrong
+    q = 0
+    with pyexec.rewritten_buffers() as rb:
+        for i, (line, proj, want) in enumerate(keep):
+            try:
+                g = pyexec.py_answer(line)
+            except Exception as e:  # noqa: BLE001
+                g = f"uncaught {type(e).__name__}"
+            q += 1
+            if PROJ[proj](g) != PROJ[proj](want):
+                ctx.violations.append({"kind": "disagreement", "op": line, "gen": "rewritten-buffer session", "proj": proj,
+                                       "model": want, "pyemv": g, "history": [k[0] for k in keep[: i + 1]], "rewritten_buffers": True,
+                                       "note": "each byte-string argument travels in one bytearray per (operation, position), overwritten "
+                                               "in place before every call; class objects are reused"})
+                break
+    ctx.relational["rewritten-buffer session: same answers"] += q
+    ctx.evaluations += q
+    ctx.extra["rewritten_buffer_session"] = {"calls": q, "buffers": len(rb.bufs)}
     ctx.relational["buffer-view arguments: same answer or TypeError"] += m
     ctx.evaluations += m
     ctx.extra["buffer_view_session"] = {"calls": m, "refused_with_TypeError": refused}
